@@ -162,6 +162,7 @@ func Run(c *Case) (failure string, labels map[string]int, nontrivial bool) {
 	desc := &grpc.StreamDesc{StreamName: "S", ClientStreams: true, ServerStreams: true}
 	opts := []grpc.CallOption{grpc.WaitForReady(true), grpc.MaxCallRecvMsgSize(7)}
 	creations := 0
+	lastCreateCtx = nil
 	var fake *fakeStream
 	var createErrs []error
 	var creating bool
@@ -193,6 +194,7 @@ func Run(c *Case) (failure string, labels map[string]int, nontrivial bool) {
 			return nil, errors.New("harness: " + streamerFailure)
 		}
 		lastCreateReq = req
+		lastCreateCtx = sctx
 		out := 0
 		if creations-1 < len(c.Create) {
 			out = c.Create[creations-1]
@@ -515,11 +517,25 @@ func Run(c *Case) (failure string, labels map[string]int, nontrivial bool) {
 			}
 		}
 	}
+	if fake != nil && lastCreateCtx != nil {
+		// the picker's completion callback reads the messages from the creating context when the stream ENDS: they must still
+		// be this stream's after other calls went through the interceptors meanwhile
+		first := lastCreateReq
+		other, otherReply := &struct{ K string }{"other-call"}, &struct{ K string }{}
+		grpcgcp.GCPUnaryClientInterceptor(context.Background(), "/svc/Other", other, otherReply, nil, func(context.Context, string, interface{}, interface{}, *grpc.ClientConn, ...grpc.CallOption) error {
+			return nil
+		})
+		if req, _, ok := grpcgcp.VerifCtxMsgs(lastCreateCtx); !ok || req != first {
+			fail("after other calls went through the interceptors, the context this stream was created with carries %v as its first message, it was %v", req, first)
+		}
+		labels["creating-context-checked-after-other-calls"]++
+	}
 	nontrivial = earlyWaiter || labels["cancel-while-receiver-waits-for-creation"] > 0 || labels["send-after-failed-creation"] > 0
 	return "", labels, nontrivial
 }
 
 var lastCreateReq interface{}
+var lastCreateCtx context.Context
 
 // nanotime is the real monotonic clock (time.Now is virtual inside a bubble).
 //
